@@ -41,7 +41,7 @@ Fixpoint corr_hist (E : env) (once : list (nat * reaction)) (i : Z) (st : dstate
   | [] => []
   | (o, ob) :: r =>
       map (fun c => (100 * i + c)%Z) (obs_diff (snd (dstep E once st o)) ob)
-      ++ corr_hist E once (i + 1)%Z (dnext once st o ob) r
+      ++ corr_hist E once (i + 1)%Z (dnext E once st o ob) r
   end.
 
 Definition corr_codes (c : case) : list Z :=
